@@ -45,6 +45,11 @@ def parseOp : List String → Option SOp
         let p ← if p = "none" then some none else (payload? p).map some
         pure (.frame (w = "aframe") (← oc.toNat?) (← bool? fin) p)
       else none
+  | [w, oc, fin, p, _retype] =>     -- `retype=<op>`: the frame's type was set to <op> first and is replaced (same frame)
+      if w = "frame" ∨ w = "aframe" then do
+        let p ← if p = "none" then some none else (payload? p).map some
+        pure (.frame (w = "aframe") (← oc.toNat?) (← bool? fin) p)
+      else none
   | ["flush"] => some (.flush false)
   | ["aflush"] => some (.flush true)
   | ["pump"] => some .pump
